@@ -446,3 +446,16 @@ def _check_write_loop(ctx, prog, eff, cap, wf, rule="R1.3"):
     ctx.check(outs and all(o.kind == "die" for o in outs), rule, "write_evbuf:error-dies", wf.loc(),
               "a failing write() does not abort: flushed events would be lost silently")
     ctx.check(n_checked >= 2, rule, "write_evbuf:explored", wf.loc(), "too few paths explored")
+
+
+_run_base = run
+
+
+def run(ctx):
+    _run_base(ctx)
+    prog = ctx.prog
+    ctx.rule("R1.10", "a payload of exactly one byte cannot be encoded (size field 0 = none, k = k + 1 bytes): "
+             "ovni_payload_add on an empty payload refuses chunks of 1, 0 and -1 bytes instead of accepting the byte and "
+             "dropping it")
+    from rules import round5
+    round5.check_payload_add_tiny(ctx, "R1.10")
